@@ -142,6 +142,10 @@ func (x *Exec) oblige(st *State, kind, name string, props []string, goal *Term, 
 func (x *Exec) safety(st *State, kind string, in ssa.Instruction, goal *Term, text string) {
 	name := x.instrName(kind, in)
 	x.oblige(st, kind, name, x.safetyProps(), goal, text, x.W.pos(in.Pos()))
+	if n := len(x.obls); n > 0 && x.obls[n-1].Name == name && x.obls[n-1].Result == "" && x.entry != nil && len(x.inl) == 0 && (kind == "index" || kind == "slice" || kind == "nil" || kind == "div" || kind == "assert" || kind == "nilmap") {
+		// a ground counterexample to a safety obligation can be replayed: the real call must panic on it
+		x.obls[n-1].Replay = x.replaySpecFor(x.fn, x.entry.params, st, nil)
+	}
 	// after checking, assume it (standard: later obligations may rely on it)
 	st.Assume(goal)
 }
